@@ -1,6 +1,7 @@
 package main
 
 import (
+	"strconv"
 	"fmt"
 	"go/types"
 	"sort"
@@ -350,6 +351,7 @@ func checkC30Install(w *World, r *Run, rule string) {
 	// (1) in SetupServer every installer middleware is applied unconditionally
 	uncond := false
 	cond := ""
+	condDesc := ""
 	allInstrs(setup, false, func(_ *ssa.Function, ins ssa.Instruction) {
 		c, ok := ins.(ssa.CallInstruction)
 		if !ok {
@@ -368,13 +370,47 @@ func checkC30Install(w *World, r *Run, rule string) {
 		if !inst {
 			return
 		}
-		if len(factsAt(c.Block())) == 0 {
+		fs := factsAt(c.Block())
+		if len(fs) == 0 {
 			uncond = true
-		} else {
-			cond = w.Pos(posOf(c))
+			return
 		}
+		cond = w.Pos(posOf(c))
+		var parts []string
+		for _, f := range fs {
+			d := describeVal(f.Val)
+			if i := paramIndex(setup, f.Val); i >= 0 {
+				d = setup.Params[i].Name()
+			}
+			if b, ok := f.Val.(*ssa.BinOp); ok {
+				x := describeVal(b.X)
+				if isLenOf(b.X, func(v ssa.Value) bool { return paramIndex(setup, v) >= 0 }) {
+					x = "len(" + setup.Params[paramIndex(setup, b.X.(*ssa.Call).Call.Args[0])].Name() + ")"
+				}
+				y := describeVal(b.Y)
+				if k, isC := intConst(b.Y); isC {
+					y = strconv.FormatInt(k, 10)
+				}
+				d = x + " " + b.Op.String() + " " + y
+			}
+			switch f.Kind {
+			case NonNil:
+				d += " != nil"
+			case IsNil:
+				d += " == nil"
+			case IsFalse:
+				d = "!(" + d + ")"
+			}
+			parts = append(parts, d)
+		}
+		sort.Strings(parts)
+		condDesc = strings.Join(parts, " && ")
 	})
-	r.Check(uncond, rule, "SetupServer: aws-chunked decoder installed regardless of configured credentials", setup.Pos(), "unconditional middleware", "the only installer of the decoder ("+cond+") is applied under credentials != nil: with authentication disabled an aws-chunked body is stored with its chunk framing")
+	consInst := "SetupServer: aws-chunked decoder installed on every configuration"
+	if !uncond && condDesc != "" {
+		consInst = "SetupServer: aws-chunked decoder installed only where " + condDesc
+	}
+	r.Check(uncond, rule, consInst, setup.Pos(), "unconditional middleware", "the only installer of the decoder ("+cond+") is applied only where "+condDesc+": in every other configuration an aws-chunked body is stored with its chunk framing, unverified")
 	// (2) inside the signature middleware every forward is preceded by an installer call
 	cl := mk.AnonFuncs[0]
 	allFwd := true
